@@ -55,7 +55,7 @@ def read_out(d):
         return out
     for n in sorted(os.listdir(d)):
         p = os.path.join(d, n)
-        if os.path.isfile(p):
+        if os.path.isfile(p) and not os.path.islink(p):
             with open(p, "rb") as fh:
                 out[n] = norm(fh.read().decode(errors="replace"))
     return out
@@ -69,6 +69,10 @@ def snapshot(root):
             snap[os.path.relpath(os.path.join(dp, d), root) + "/"] = ("dir", 0)
         for f in fn:
             p = os.path.join(dp, f)
+            if os.path.islink(p):
+                # never read through a link (an injected fault may point at /dev/full)
+                snap[os.path.relpath(p, root)] = ("symlink:" + os.readlink(p), 0)
+                continue
             try:
                 with open(p, "rb") as fh:
                     h = hashlib.sha1(fh.read()).hexdigest()
